@@ -259,8 +259,10 @@ def r3b_capture_logs_on_every_exit(ctx):
                 seq.append((c.func.attr, n, c))
     names = [k for (k, _, _) in seq]
     ok_order = names == ['seek', 'read', 'tell']
-    ok_seek = ok_order and len(seq[0][2].args) == 1 and is_attr_of(seq[0][2].args[0], rh, '_pos')
-    ok_tell = ok_order and isinstance(seq[2][1].ast, ast.Assign) and any(is_attr_of(t, rh, '_pos') for t in seq[2][1].ast.targets) and seq[2][1].ast.value is seq[2][2]
+    # the position field: whatever attribute of the object is handed to seek() (its name is free)
+    posattr = seq[0][2].args[0].attr if ok_order and len(seq[0][2].args) == 1 and isinstance(seq[0][2].args[0], ast.Attribute) and is_name(seq[0][2].args[0].value, rh) else None
+    ok_seek = posattr is not None
+    ok_tell = ok_order and posattr is not None and isinstance(seq[2][1].ast, ast.Assign) and any(is_attr_of(t, rh, posattr) for t in seq[2][1].ast.targets) and seq[2][1].ast.value is seq[2][2]
     rep.ob('C01.R3b', ctx.loc(host, host.node), 'log_part reads from the saved position and saves the new one', ok_order and ok_seek and ok_tell,
            'seek(self._pos); read(); self._pos = tell()' if ok_order and ok_seek and ok_tell else
            'the moving read position is not maintained (%s): output of one part is lost or attributed to another part' % names, anchor=CAP + '.log_part')
